@@ -58,7 +58,7 @@ def make_cov(rng, n, kind, scale):
 def run(ctx):
     from fast_ticc import admm, matrix_compression as mc, graphical_lasso as gl
     rng = np.random.default_rng(ctx.seed)
-    ctx.proof_layer(allowed_axioms=list(R_AX) + [core.FLOAT_SPEC], coq_deps=["Corr/RunAdmm"], gen=["solver", "graphical_lasso"])
+    ctx.proof_layer(allowed_axioms=list(R_AX) + [core.FLOAT_SPEC], coq_deps=["Corr/RunAdmm"], gen=["solver", "graphical_lasso", "admm_x"])
     core.note_drift(ctx, ANCHORS)
     cov = core.LineCoverage()
     with cov:
